@@ -30,6 +30,19 @@ def Items.noElems : Items → Bool
   | .text _ r => r.noElems
   | .other r => r.noElems
 
+/-- append a name that is not yet listed (`known_elements.push` / first insertion of a child) -/
+def mark (known : List Name) (n : Name) : List Name := if known.contains n then known else known ++ [n]
+
+/-- names of the child elements among the items, each appended at its first appearance -/
+def marks (ord : List Name) : Items → List Name
+  | .nil => ord
+  | .elem n r => marks (mark ord n.name) r
+  | .text _ r => marks ord r
+  | .other r => marks ord r
+
+/-- the child names of a position in order of first appearance over its occurrences (stream order) -/
+def orderOf (occs : List Node) : List Name := occs.foldl (fun ord o => marks ord o.items) []
+
 mutual
 /-- well-formedness of a document tree as far as the parser can see it: attribute names of one element are
 distinct (the reader rejects duplicates) and `<x/>` has no content -/
